@@ -30,7 +30,9 @@ RULE = (
     'different physical point, judged against the definition at that point); plus a binned (event) data operand per unit '
     'combination in float64 and float32. A configuration is non-trivial when the kernel returned and its value was judged against '
     'the 50-digit definition (or, for the non-orthogonal gravity path, against the same call in base units); distinct = distinct '
-    '(kernel, units, dtypes, variant).'
+    '(kernel, units, dtypes, variant). Thorough tier: the same grid with the wide unit alphabet, repeated at every physical point of '
+    'POINTS / GRAVITY_POINTS / GEOM_SCALES (point 0 = base point), plus per dtype combination one call with all points as 1-d '
+    'operands, plus event data in each operand position in turn.'
 )
 ASSUMPTIONS = [
     'h, m_n, eV->J as scipp exposes them (ref/hp.py); references evaluated on the values the kernel received',
@@ -52,7 +54,13 @@ ASSUMPTIONS = [
 BOUND = {
     'quick': '11 TOF kernels, 10 beamline kernels (2 gravity paths), 2 chopper-cascade kernels: all unit combinations x all dtype '
     'combinations over {float64,float32,int64} plus int32 in one argument at a time; binned data operand per unit combination',
-    'thorough': 'same with the full {float64,float32,int64,int32}^n dtype grid',
+    'thorough': 'wide unit alphabet (length mm/m/km/angstrom/um/nm/cm; wavelength angstrom/nm/m/um/pm; energy ueV/meV/eV/keV/J; Q + 1/um) '
+    'x the full {float64,float32,int64,int32}^n dtype grid x several physical points per kernel (5 for the elastic kernels: base, both ends '
+    'of 1e-9..1e9 SI and the two crossed ends, scattering angles 1e-6 / 1 / 60 / 179 / 180 deg; 6 flights for the inelastic kernels: base, '
+    'scaled 1e-6 and 1e6, 5 ueV and 5 eV neutrons, arrival before t0; 4 for gravity (0.5..2000 angstrom, scattered beam x 1/4..8, two '
+    'gravity strengths), propagation and total length; positions x 2^-20, 1, 2^20 for the vector kernels) x layouts: 0-d per point, all '
+    'points as one 1-d call per dtype combination, event data in every operand position (float64 / float32), broadcast and binned '
+    'wavelength (incl. int64 events, int32 broadcast) for the gravity kernels',
 }
 REQUIRED_CLASSES = [
     'out_float64', 'out_float32', 'int_operand_ok', 'int32_ok', 'int32_dtype_error', 'nan_expected', 'finite_inelastic',
@@ -71,10 +79,16 @@ Q_UNITS = ('1/angstrom', '1/nm', '1/m')
 ACC_UNITS = ('m/s^2', 'mm/s^2', 'km/s^2', 'm/ms^2')
 UNITS_OF_KIND = {'time': TIME_UNITS, 'length': LEN_UNITS, 'energy': kin.ENERGY_UNITS, 'angle': kin.ANGLE_UNITS, 'inv_length': Q_UNITS, 'accel': ACC_UNITS}
 ARG_UNITS = {'wavelength': WAV_UNITS}
+# thorough tier: wider alphabets
+UNITS_OF_KIND_WIDE = {
+    'time': TIME_UNITS, 'length': ('mm', 'm', 'km', 'angstrom', 'um', 'nm', 'cm'), 'energy': kin.ENERGY_UNITS_WIDE, 'angle': kin.ANGLE_UNITS,
+    'inv_length': ('1/angstrom', '1/nm', '1/m', '1/um'), 'accel': ACC_UNITS,
+}
+ARG_UNITS_WIDE = {'wavelength': ('angstrom', 'nm', 'm', 'um', 'pm')}
 
 RATIONAL = {
     'time': kin.TIME, 'length': kin.LENGTH, 'inv_length': kin.INV_LENGTH, 'accel': kin.ACCEL,
-    'energy': {'ueV': Fraction(1, 10**6), 'meV': Fraction(1, 1000), 'eV': Fraction(1)},
+    'energy': {'ueV': Fraction(1, 10**6), 'meV': Fraction(1, 1000), 'eV': Fraction(1), 'keV': Fraction(1000)},
     'angle': {'deg': Fraction(1)},
 }
 
@@ -94,11 +108,67 @@ BASE = {
 BASE_OVERRIDE = {(k, 'tof'): (Fraction(8), 'ms') for k in INELASTIC}
 FALLBACK_INT = {'two_theta': 1}
 
+
+def _pt(**kw):
+    return {k: (Fraction(v[0]), v[1]) for k, v in kw.items()}
+
+
+# Physical points per kernel.  Point 0 is the base point (the only one of the quick tier); the others sit near both ends of
+# the stated ranges (1e-9 .. 1e9 SI, angles near 0 and pi) and are chosen so that several unit choices stay integer-valued.
+_TL = [
+    _pt(tof=(2, 'ms'), Ltotal=(3, 'm')), _pt(tof=(2, 'ns'), Ltotal=(3, 'nm')), _pt(tof=(2000000, 's'), Ltotal=(3000, 'km')),
+    _pt(tof=(2, 'ns'), Ltotal=(3000, 'km')), _pt(tof=(2000000, 's'), Ltotal=(3, 'nm')),
+]
+_TT = [(60, 'deg'), (Fraction(1, 10**6), 'deg'), (180, 'deg'), (1, 'deg'), (179, 'deg')]
+_WL = [(2, 'angstrom'), (2, 'nm'), (2, 'mm'), (2 * 10**9, 'm'), (2, 'um')]
+_EN = [(5, 'meV'), (5, 'ueV'), (5, 'keV'), (2, 'J'), (Fraction(1, 10**9), 'J')]
+_QS = [(2, '1/angstrom'), (2, '1/m'), (2000, '1/nm'), (2, '1/km'), (2, '1/um')]
+_INEL = [  # (tof, L1, L2, fixed energy): same flight scaled in length/time, colder / hotter neutrons, and an unphysical early arrival
+    ((8, 'ms'), (3, 'm'), (1, 'm'), (5, 'meV')), ((8, 'ns'), (3, 'um'), (1, 'um'), (5, 'meV')), ((8000, 's'), (3000, 'km'), (1000, 'km'), (5, 'meV')),
+    ((250, 'ms'), (3, 'm'), (1, 'm'), (5, 'ueV')), ((250, 'us'), (3, 'm'), (1, 'm'), (5, 'eV')), ((1, 'ms'), (3, 'm'), (1, 'm'), (5, 'meV')),
+]
+POINTS = {
+    'wavelength_from_tof': _TL,
+    'energy_from_tof': _TL,
+    'dspacing_from_tof': [{**p, **_pt(two_theta=t)} for p, t in zip(_TL, _TT, strict=True)],
+    'energy_from_wavelength': [_pt(wavelength=w) for w in _WL[:4]],
+    'wavelength_from_energy': [_pt(energy=e) for e in _EN],
+    'Q_from_wavelength': [_pt(wavelength=w, two_theta=t) for w, t in zip(_WL, _TT, strict=True)],
+    'dspacing_from_wavelength': [_pt(wavelength=w, two_theta=t) for w, t in zip(_WL, _TT, strict=True)],
+    'wavelength_from_Q': [_pt(Q=q, two_theta=t) for q, t in zip(_QS, _TT, strict=True)],
+    'dspacing_from_energy': [_pt(energy=e, two_theta=t) for e, t in zip(_EN, _TT, strict=True)],
+    'energy_transfer_direct_from_tof': [_pt(tof=a, L1=b, L2=c, incident_energy=d) for a, b, c, d in _INEL],
+    'energy_transfer_indirect_from_tof': [_pt(tof=a, L1=b, L2=c, final_energy=d) for a, b, c, d in _INEL],
+    'total_beam_length': [_pt(L1=(3, 'm'), L2=(1, 'm')), _pt(L1=(3, 'nm'), L2=(1, 'nm')), _pt(L1=(3000, 'km'), L2=(1000, 'km')), _pt(L1=(3, 'nm'), L2=(1000, 'km'))],
+    # flight time comparable to the start time in every point
+    'propagate_times': [
+        _pt(time=(2, 'ms'), wavelength=(2, 'angstrom'), distance=(3, 'm')), _pt(time=(2, 'ns'), wavelength=(2, 'angstrom'), distance=(3, 'um')),
+        _pt(time=(2000000, 's'), wavelength=(2, 'angstrom'), distance=(3000000, 'km')), _pt(time=(2, 's'), wavelength=(2000, 'angstrom'), distance=(3, 'm')),
+    ],
+    'wavelength_to_inverse_velocity': [_pt(wavelength=w) for w in [(2, 'angstrom'), (2, 'pm'), (2, 'um'), (2, 'm')]],
+}
+for _k, _pts in POINTS.items():  # point 0 must be the historical base point
+    for _a, _v in _pts[0].items():
+        assert _v == BASE_OVERRIDE.get((_k, _a), BASE[_a]), (_k, _a)
+# gravity kernels: (wavelength, exact power-of-two scale of the scattered beam, gravity vector)
+GRAVITY_POINTS = [
+    {'wavelength': (Fraction(2), 'angstrom'), 'scale': 1.0, 'gvec': 'gravity'},
+    {'wavelength': (Fraction(20), 'angstrom'), 'scale': 8.0, 'gvec': 'gravity'},
+    {'wavelength': (Fraction(1, 2), 'angstrom'), 'scale': 0.25, 'gvec': 'gravity_moon'},
+    {'wavelength': (Fraction(2000), 'angstrom'), 'scale': 1.0, 'gvec': 'gravity'},
+]
+GEOM_SCALES = (1.0, 2.0**-20, 2.0**20)
+
+
+def points_of(kernel, tier):
+    pts = POINTS[kernel]
+    return pts if tier == 'thorough' else pts[:1]
+
 # geometry base point (metres, m/s^2), decimal strings -> exact Fractions
 VEC = {
     'source_position': ('0.1', '-0.2', '-11.3'), 'sample_position': ('0.02', '0.01', '0.3'), 'position': ('1.8', '2.5', '3.9'),
     'incident_orth': ('0', '0', '11.6'), 'incident_tilt': ('0', '0.3', '11.6'), 'scattered_beam': ('1.8', '2.5', '3.6'),
-    'gravity': ('0', '-9.81', '0'),
+    'gravity': ('0', '-9.81', '0'), 'gravity_moon': ('0', '-1.62', '0'),
 }
 
 
@@ -117,9 +187,9 @@ def express(kind, base, unit):
     return None, float(kin.from_si(kind, si, unit))
 
 
-def arg_value(kernel, arg, kind, unit, dtype):
+def arg_value(kernel, arg, kind, unit, dtype, point=None):
     """(python value to build the scalar from, 'same' | 'fallback')."""
-    base = BASE_OVERRIDE.get((kernel, arg), BASE[arg])
+    base = point[arg] if point is not None else BASE_OVERRIDE.get((kernel, arg), BASE[arg])
     q, f = express(kind, base, unit)
     if dtype.startswith('float'):
         return f, 'same'
@@ -136,9 +206,10 @@ def received(value, dtype) -> float:
     return float(np.asarray(value, dtype=dtype).astype('float64'))
 
 
-def vector(name, unit, kind='length'):
+def vector(name, unit, kind='length', scale=1.0):
+    """scale: exact power of two applied to the base point."""
     tab = RATIONAL[kind]
-    comps = [float(Fraction(c) / tab[unit]) for c in VEC[name]]
+    comps = [float(Fraction(c) * Fraction(scale) / tab[unit]) for c in VEC[name]]
     return sc.vector(comps, unit=unit), comps
 
 
@@ -168,8 +239,11 @@ def dtype_grid(n, tier):
 # enumeration
 
 
-def _unit_choices(args):
-    per_arg = [ARG_UNITS.get(name, UNITS_OF_KIND[kind]) for name, kind in args]
+def _unit_choices(args, tier='quick'):
+    if tier == 'thorough':
+        per_arg = [ARG_UNITS_WIDE.get(name, UNITS_OF_KIND_WIDE[kind]) for name, kind in args]
+    else:
+        per_arg = [ARG_UNITS.get(name, UNITS_OF_KIND[kind]) for name, kind in args]
     names = [name for name, _ in args]
     return [dict(zip(names, combo, strict=True)) for combo in itertools.product(*per_arg)]
 
@@ -195,17 +269,17 @@ CHOPPER_KERNELS = {
 def cases(tier):
     out = []
     for kernel, spec in TOF_KERNELS.items():
-        for units in _unit_choices(spec['args']):
+        for units in _unit_choices(spec['args'], tier):
             out.append({'family': 'tof', 'kernel': kernel, 'units': units, 'tier': tier})
     for kernel, args in GEOM_KERNELS.items():
-        for units in _unit_choices(args):
+        for units in _unit_choices(args, tier):
             out.append({'family': 'geom', 'kernel': kernel, 'units': units, 'tier': tier})
-    for units in _unit_choices(GRAVITY_ARGS):
+    for units in _unit_choices(GRAVITY_ARGS, tier):
         out.append({'family': 'gravity', 'kernel': 'scattering_angles_with_gravity', 'variant': 'orth', 'units': units, 'tier': tier})
         out.append({'family': 'gravity', 'kernel': 'scattering_angles_with_gravity', 'variant': 'tilt', 'units': units, 'tier': tier})
         out.append({'family': 'gravity', 'kernel': 'scattering_angle_in_yz_plane', 'variant': 'orth', 'units': units, 'tier': tier})
     for kernel, args in CHOPPER_KERNELS.items():
-        for units in _unit_choices(args):
+        for units in _unit_choices(args, tier):
             out.append({'family': 'chopper', 'kernel': kernel, 'units': units, 'tier': tier})
     return out
 
@@ -264,6 +338,19 @@ def _judge_tof_value(rec, site, kernel, vals, units, prec, got, label, sub):
         rec.cls('value_ok')
 
 
+def _check_tof_meta(rec, site, kernel, label, sub, res, out_unit, dmap):
+    """unit and dtype contract of one (dense) result; False when the value cannot be judged."""
+    if res.unit != out_unit:
+        rec.viol(site, 'wrong_unit', f'{label}: result unit {res.unit!r}, documented {out_unit!r}', got_unit=str(res.unit), **sub)
+        return False
+    want_dt = _expected_tof_dtype(kernel, dmap)
+    if str(res.dtype) != want_dt:
+        rec.viol(site, 'wrong_dtype', f'{label}: result dtype {res.dtype}, contract {want_dt}', got_dtype=str(res.dtype), **sub)
+    else:
+        rec.cls('out_' + want_dt)
+    return True
+
+
 def _run_tof(case, rec):
     kernel, units, tier = case['kernel'], case['units'], case['tier']
     spec = TOF_KERNELS[kernel]
@@ -272,6 +359,7 @@ def _run_tof(case, rec):
     names = [a for a, _ in spec['args']]
     kinds = dict(spec['args'])
     out_unit = sc.Unit(_tof_out_unit(kernel, units))
+    points = points_of(kernel, tier)
     # call-history dimension: fresh module state (reload), then the dtype grid in its natural order (double first) for
     # half of the unit combinations and single precision first for the other half, so that a result depending on which
     # precision was converted first for a unit (e.g. a memoised converted constant) is judged in both orders
@@ -288,45 +376,73 @@ def _run_tof(case, rec):
         rec.cls('history_double_precision_first')
     for dts in grid:
         dmap = dict(zip(names, dts, strict=True))
-        built = {a: arg_value(kernel, a, kinds[a], units[a], dmap[a]) for a in names}
-        kw = {a: scalar(built[a][0], units[a], dmap[a]) for a in names}
-        vals = {a: received(built[a][0], dmap[a]) for a in names}
-        sub = {'units': units, 'dtypes': dmap}
-        label = f'{kernel} values {vals} units {units} dtypes {dmap}'
-        rec.states += 1
-        rec.transitions += 1
         has_i32 = 'int32' in dts
         has_int = any(d.startswith('int') for d in dts)
-        try:
-            res = fn(**kw)
-        except sc.DTypeError as e:
+        per_point = []
+        for ip, point in enumerate(points):
+            built = {a: arg_value(kernel, a, kinds[a], units[a], dmap[a], point) for a in names}
+            kw = {a: scalar(built[a][0], units[a], dmap[a]) for a in names}
+            vals = {a: received(built[a][0], dmap[a]) for a in names}
+            per_point.append((built, vals))
+            sub = {'units': units, 'dtypes': dmap} if ip == 0 else {'units': units, 'dtypes': dmap, 'point': ip}
+            label = f'{kernel} values {vals} units {units} dtypes {dmap}'
+            rec.states += 1
+            rec.transitions += 1
+            try:
+                res = fn(**kw)
+            except sc.DTypeError as e:
+                if has_i32:
+                    rec.cls('int32_dtype_error')
+                else:
+                    rec.viol(site, 'raises_dtype_error', f'{label}: {e}', **sub)
+                continue
+            except sc.UnitError as e:
+                rec.viol(site, 'raises_unit_error', f'{label}: {e}', **sub)
+                continue
+            rec.evals += 1
+            rec.observe(res.value)
+            if not _check_tof_meta(rec, site, kernel, label, sub, res, out_unit, dmap):
+                continue
+            if res.dims != ():
+                rec.viol(site, 'wrong_dims', f'{label}: scalar operands gave dims {res.dims}', **sub)
+                continue
+            _judge_tof_value(rec, site, kernel, vals, units, precision(dts), float(res.value), label, sub)
             if has_i32:
-                rec.cls('int32_dtype_error')
-            else:
-                rec.viol(site, 'raises_dtype_error', f'{label}: {e}', **sub)
-            continue
-        except sc.UnitError as e:
-            rec.viol(site, 'raises_unit_error', f'{label}: {e}', **sub)
-            continue
-        rec.evals += 1
-        rec.observe(res.value)
-        if res.unit != out_unit:
-            rec.viol(site, 'wrong_unit', f'{label}: result unit {res.unit!r}, documented {out_unit!r}', got_unit=str(res.unit), **sub)
-            continue
-        want_dt = _expected_tof_dtype(kernel, dmap)
-        if str(res.dtype) != want_dt:
-            rec.viol(site, 'wrong_dtype', f'{label}: result dtype {res.dtype}, contract {want_dt}', got_dtype=str(res.dtype), **sub)
-        else:
-            rec.cls('out_' + want_dt)
-        if res.dims != ():
-            rec.viol(site, 'wrong_dims', f'{label}: scalar operands gave dims {res.dims}', **sub)
-            continue
-        _judge_tof_value(rec, site, kernel, vals, units, precision(dts), float(res.value), label, sub)
-        if has_i32:
-            rec.cls('int32_ok')
-        if has_int:
-            rec.cls('int_operand_ok')
-            rec.cls('fallback_int_point' if any(built[a][1] == 'fallback' for a in names) else 'same_point_int')
+                rec.cls('int32_ok')
+            if has_int:
+                rec.cls('int_operand_ok')
+                rec.cls('fallback_int_point' if any(built[a][1] == 'fallback' for a in names) else 'same_point_int')
+            if ip:
+                rec.cls('extra_point')
+        if len(points) > 1:
+            # all points at once: every operand a 1-d array over the points (same dtype combination)
+            kw = {a: sc.array(dims=['p'], values=np.asarray([b[a][0] for b, _ in per_point], dtype=dmap[a]), unit=units[a], dtype=dmap[a]) for a in names}
+            sub = {'units': units, 'dtypes': dmap, 'layout': 'points_1d'}
+            label = f'{kernel} all {len(points)} points as 1-d operands units {units} dtypes {dmap}'
+            rec.states += 1
+            rec.transitions += 1
+            try:
+                res = fn(**kw)
+            except sc.DTypeError as e:
+                if has_i32:
+                    rec.cls('int32_dtype_error')
+                else:
+                    rec.viol(site, 'raises_dtype_error', f'{label}: {e}', **sub)
+                continue
+            except sc.UnitError as e:
+                rec.viol(site, 'raises_unit_error', f'{label}: {e}', **sub)
+                continue
+            rec.evals += 1
+            if not _check_tof_meta(rec, site, kernel, label, sub, res, out_unit, dmap):
+                continue
+            if dict(res.sizes) != {'p': len(points)}:
+                rec.viol(site, 'wrong_dims', f'{label}: result sizes {dict(res.sizes)}', **sub)
+                continue
+            got = res.values.astype('float64')
+            rec.observe(got.tobytes().hex())
+            for ip, (_b, vals) in enumerate(per_point):
+                _judge_tof_value(rec, site, kernel, vals, units, precision(dts), float(got[ip]), f'{label} element {ip} {vals}', {**sub, 'point': ip})
+            rec.cls('points_1d_ok')
     # integer operands that are not whole numbers in any coarser unit (e.g. 2000567 ns, 3001 mm): a kernel that converts
     # the operand (instead of the constant) to another unit in integer arithmetic rounds them
     for a in names:
@@ -354,11 +470,19 @@ def _run_tof(case, rec):
             continue
         _judge_tof_value(rec, site, kernel, vals, units, precision(tuple(dmap[n] for n in names)), float(res.value), label, sub)
         rec.cls('fine_integer_operand')
-    _run_tof_binned(case, rec)
+    for ip, point in enumerate(points):
+        for pos in range(len(names) if tier == 'thorough' else 1):
+            _run_tof_binned(case, rec, pos, ip, point)
 
 
-def _run_tof_binned(case, rec):
-    """Data operand as event data (2 bins, 3 events), every other operand one value per bin."""
+def _binned(values, unit, dtype):
+    """3 events in 2 bins (2 + 1) along 'pixel'."""
+    table = sc.DataArray(sc.ones(dims=['event'], shape=[3]), coords={'x': sc.array(dims=['event'], values=values, unit=unit, dtype=dtype)})
+    return sc.bins(begin=sc.array(dims=['pixel'], values=[0, 2], unit=None), dim='event', data=table).bins.coords['x']
+
+
+def _run_tof_binned(case, rec, pos=0, ip=0, point=None):
+    """Operand ``pos`` as event data (2 bins, 3 events), every other operand one value per bin (fixed energies: 0-d)."""
     kernel, units = case['kernel'], case['units']
     spec = TOF_KERNELS[kernel]
     fn = getattr(K, kernel)
@@ -368,17 +492,18 @@ def _run_tof_binned(case, rec):
     out_unit = sc.Unit(_tof_out_unit(kernel, units))
     scale_ev = (1.0, 1.25, 0.75)
     scale_bin = (1.0, 1.5)
+    bname = names[pos]
     for dt in ('float64', 'float32'):
-        dmap = {a: (dt if a == names[0] else 'float64') for a in names}
-        if kernel in INELASTIC:
+        dmap = {a: (dt if a == bname else 'float64') for a in names}
+        if kernel in INELASTIC and pos == 0:
             dmap[INELASTIC[kernel][1]] = dt
-        base = {a: arg_value(kernel, a, kinds[a], units[a], dmap[a])[0] for a in names}
-        ev = np.asarray([base[names[0]] * s for s in scale_ev], dtype=dt)
-        table = sc.DataArray(sc.ones(dims=['event'], shape=[3]), coords={'x': sc.array(dims=['event'], values=ev, unit=units[names[0]], dtype=dt)})
-        binned = sc.bins(begin=sc.array(dims=['pixel'], values=[0, 2], unit=None), dim='event', data=table).bins.coords['x']
-        kw = {names[0]: binned}
+        base = {a: arg_value(kernel, a, kinds[a], units[a], dmap[a], point)[0] for a in names}
+        ev = np.asarray([base[bname] * s for s in scale_ev], dtype=dt)
+        kw = {bname: _binned(ev, units[bname], dt)}
         per_bin = {}
-        for a in names[1:]:
+        for a in names:
+            if a == bname:
+                continue
             if kinds[a] == 'energy':
                 per_bin[a] = np.asarray([base[a], base[a]], dtype=dmap[a])  # fixed energies: scalar in practice
                 kw[a] = scalar(base[a], units[a], dmap[a])
@@ -386,13 +511,23 @@ def _run_tof_binned(case, rec):
                 per_bin[a] = np.asarray([base[a] * s for s in scale_bin], dtype=dmap[a])
                 kw[a] = sc.array(dims=['pixel'], values=per_bin[a], unit=units[a], dtype=dmap[a])
         sub = {'units': units, 'dtypes': dmap, 'layout': 'binned'}
-        label = f'{kernel} binned data operand units {units} dtypes {dmap}'
+        if pos:
+            sub['binned_operand'] = bname
+        if ip:
+            sub['point'] = ip
+        label = f'{kernel} binned {"data operand" if pos == 0 else bname} units {units} dtypes {dmap}' + (f' point {ip}' if ip else '')
         rec.states += 1
         rec.transitions += 1
         try:
             res = fn(**kw)
         except sc.UnitError as e:
             rec.viol(site, 'raises_unit_error', f'{label}: {e}', **sub)
+            continue
+        except (sc.DTypeError, sc.BinnedDataError, sc.DimensionError, sc.VariableError, TypeError, ValueError, RuntimeError) as e:
+            if pos == 0:
+                raise
+            rec.cls('binned_position_refused')  # event data in a non-data operand is not a documented use
+            rec.observe(type(e).__name__)
             continue
         if res.bins is None:
             rec.viol(site, 'not_binned', f'{label}: result is not binned', **sub)
@@ -406,15 +541,18 @@ def _run_tof_binned(case, rec):
         if str(content.dtype) != want_dt:
             rec.viol(site, 'wrong_dtype', f'{label}: event dtype {content.dtype}, contract {want_dt}', got_dtype=str(content.dtype), **sub)
         got = content.values.astype('float64')
+        if got.shape != (3,):
+            rec.viol(site, 'wrong_dims', f'{label}: {got.shape} events, expected 3', **sub)
+            continue
         rec.observe(got.tobytes().hex())
         evr = ev.astype('float64')
         for j in range(3):
             b = 0 if j < 2 else 1
-            vals = {names[0]: float(evr[j])}
-            for a in names[1:]:
+            vals = {bname: float(evr[j])}
+            for a in per_bin:
                 vals[a] = float(per_bin[a].astype('float64')[b])
             _judge_tof_value(rec, site, kernel, vals, units, precision(dmap.values()), float(got[j]), f'{label} event {j}', {**sub, 'event': j})
-        rec.cls('binned_ok')
+        rec.cls('binned_ok' if pos == 0 else 'binned_secondary_ok')
 
 
 # ---------------------------------------------------------------------------------------
@@ -439,23 +577,31 @@ def _vec_close(rec, site, label, got_comps, got_unit_factor, want_si, tol, sub, 
 
 
 def _run_geom(case, rec):
-    kernel, units, tier = case['kernel'], case['units'], case['tier']
-    site = f'conversion.beamline.{kernel}'
-    fn = getattr(B, kernel)
-    sub = {'units': units}
-    label = f'{kernel} units {units}'
-    tol = TOL['double']
+    kernel, tier = case['kernel'], case['tier']
     if kernel == 'total_beam_length':
         return _run_total_beam_length(case, rec)
+    for scale in GEOM_SCALES if tier == 'thorough' else GEOM_SCALES[:1]:
+        _run_geom_scaled(case, rec, scale)
+
+
+def _run_geom_scaled(case, rec, scale):
+    kernel, units = case['kernel'], case['units']
+    site = f'conversion.beamline.{kernel}'
+    fn = getattr(B, kernel)
+    sub = {'units': units} if scale == 1.0 else {'units': units, 'scale': scale}
+    label = f'{kernel} units {units}' + ('' if scale == 1.0 else f' positions x {scale:g}')
+    tol = TOL['double']
     rec.states += 1
     rec.transitions += 1
     additive = kernel in ('straight_incident_beam', 'straight_scattered_beam', 'total_straight_beam_length_no_scatter')
     vecname = {'incident_beam': 'incident_tilt', 'gravity': 'gravity'}
     kw, si = {}, {}
     for arg, kind in GEOM_KERNELS[kernel]:
-        v, comps = vector(vecname.get(arg, arg), units[arg], kind)
+        v, comps = vector(vecname.get(arg, arg), units[arg], kind, scale if kind == 'length' else 1.0)
         kw[arg] = v
         si[arg] = si_vec(comps, units[arg], kind)
+    if scale != 1.0:
+        rec.cls('geom_scaled_point')
     try:
         res = fn(**kw)
     except sc.UnitError as e:
@@ -525,9 +671,9 @@ def _run_geom(case, rec):
 def _run_total_beam_length(case, rec):
     units, tier = case['units'], case['tier']
     site = 'conversion.beamline.total_beam_length'
-    for dts in dtype_grid(2, tier):
+    for point, dts in itertools.product(points_of('total_beam_length', tier), dtype_grid(2, tier)):
         dmap = dict(zip(('L1', 'L2'), dts, strict=True))
-        built = {a: arg_value('total_beam_length', a, 'length', units[a], dmap[a]) for a in dmap}
+        built = {a: arg_value('total_beam_length', a, 'length', units[a], dmap[a], point) for a in dmap}
         kw = {a: scalar(built[a][0], units[a], dmap[a]) for a in dmap}
         vals = {a: received(built[a][0], dmap[a]) for a in dmap}
         sub = {'units': units, 'dtypes': dmap}
@@ -573,10 +719,10 @@ def _run_total_beam_length(case, rec):
 BASE_GRAVITY_UNITS = {'incident_beam': 'm', 'scattered_beam': 'm', 'wavelength': 'angstrom', 'gravity': 'm/s^2'}
 
 
-def _gravity_call(kernel, variant, units, wl_value, wl_dtype, binned=False, bcast=False, sca_scale=1.0):
+def _gravity_call(kernel, variant, units, wl_value, wl_dtype, binned=False, bcast=False, sca_scale=1.0, gvec='gravity'):
     inc, inc_c = vector('incident_orth' if variant == 'orth' else 'incident_tilt', units['incident_beam'])
     sca, sca_c = vector('scattered_beam', units['scattered_beam'])
-    g, g_c = vector('gravity', units['gravity'], 'accel')
+    g, g_c = vector(gvec, units['gravity'], 'accel')
     sca = sca * sca_scale  # power of two: exact
     sca_si = [[c * hp.F(sca_scale) for c in si_vec(sca_c, units['scattered_beam'])]]
     if binned:
@@ -617,16 +763,23 @@ def _run_gravity(case, rec):
     kernel, variant, units, tier = case['kernel'], case['variant'], case['units'], case['tier']
     site = f'conversion.beamline.{kernel}'
     configs = [(dt, 'scalar') for dt in DTYPES] + [('float64', 'binned'), ('float32', 'binned')] + [(dt, 'bcast') for dt in ('float64', 'float32', 'int64')]
+    if tier == 'thorough':
+        configs += [('int64', 'binned'), ('int32', 'bcast')]
     base_cache = {}
-    for dt, layout in configs:
+    gpoints = GRAVITY_POINTS if tier == 'thorough' else GRAVITY_POINTS[:1]
+    for (ip, gp), (dt, layout) in itertools.product(enumerate(gpoints), configs):
         binned, bcast = layout == 'binned', layout == 'bcast'
-        value, how = arg_value(kernel, 'wavelength', 'length', units['wavelength'], dt)
+        value, how = arg_value(kernel, 'wavelength', 'length', units['wavelength'], dt, gp)
         sub = {'units': units, 'wavelength_dtype': dt, 'variant': variant, 'binned': binned, 'layout': layout}
         label = f'{kernel} ({variant}) units {units} wavelength dtype {dt} layout {layout}'
+        if ip:
+            sub['point'] = ip
+            label += f' point {ip} (scattered beam x {gp["scale"]:g}, {gp["gvec"]})'
+            rec.cls('extra_point')
         rec.states += 1
         rec.transitions += 1
         try:
-            res, si = _gravity_call(kernel, variant, units, value, dt, binned, bcast)
+            res, si = _gravity_call(kernel, variant, units, value, dt, binned, bcast, sca_scale=gp['scale'], gvec=gp['gvec'])
         except sc.DTypeError as e:
             if dt == 'int32':
                 rec.cls('int32_dtype_error')
@@ -652,9 +805,9 @@ def _run_gravity(case, rec):
                 # differential: same physical inputs, base units, float64 (values the kernel received, re-expressed)
                 for lam in si['wavelength']:
                     lb = float(kin.from_si('length', lam, 'angstrom'))
-                    key = (lb, ipix)
+                    key = (lb, ipix, ip)
                     if key not in base_cache:
-                        rb, _ = _gravity_call(kernel, variant, BASE_GRAVITY_UNITS, lb, 'float64', sca_scale=2.0**ipix)
+                        rb, _ = _gravity_call(kernel, variant, BASE_GRAVITY_UNITS, lb, 'float64', sca_scale=gp['scale'] * 2.0**ipix, gvec=gp['gvec'])
                         rec.transitions += 1
                         base_cache[key] = {k: hp.F(float(v.value)) for k, v in _gravity_outputs(kernel, rb).items()}
                     want.append(base_cache[key])
@@ -714,9 +867,9 @@ def _run_chopper(case, rec):
     names = [a for a, _ in args]
     kinds = dict(args)
     fn = getattr(CC, kernel)
-    for dts in dtype_grid(len(names), tier):
+    for point, dts in itertools.product(points_of(kernel, tier), dtype_grid(len(names), tier)):
         dmap = dict(zip(names, dts, strict=True))
-        built = {a: arg_value(kernel, a, kinds[a], units[a], dmap[a]) for a in names}
+        built = {a: arg_value(kernel, a, kinds[a], units[a], dmap[a], point) for a in names}
         vals = {a: received(built[a][0], dmap[a]) for a in names}
         pos = [scalar(built[a][0], units[a], dmap[a]) for a in names]
         sub = {'units': units, 'dtypes': dmap}
@@ -800,3 +953,9 @@ def run_case(case, rec):
         _layouts.run_layout_case(case, rec)
     else:
         _run_case_main(case, rec)
+
+
+REQUIRED_CLASSES = {
+    'quick': list(REQUIRED_CLASSES),
+    'thorough': [*REQUIRED_CLASSES, 'extra_point', 'points_1d_ok', 'binned_secondary_ok', 'geom_scaled_point', 'int64_ok'],
+}
